@@ -19,13 +19,13 @@ NulAt(b, p, lim) == LET S == {i \in p..lim : b[i] = 0} IN IF S = {} THEN 0 ELSE 
 (* reference step from position p (p <= nul): skip delimiters, then the token runs to the
    next delimiter (overwritten by NUL) or to the terminator *)
 RefStep(b, p, ds, nul) ==
-  LET nd == {i \in p..nul : ~InSet(b[i], ds) \/ i = nul}
+  LET nd == {i \in p..nul : i = nul \/ ~InSet(b[i], ds)}
       st == CHOOSE i \in nd : \A j \in nd : i <= j
-  IN IF st = nul THEN [tok |-> 0, len |-> 0, b |-> b, pos |-> nul]
-     ELSE LET en == {i \in st..nul : InSet(b[i], ds) \/ i = nul}
+  IN IF st = nul THEN [tok |-> 0, len |-> 0, b |-> b, pos |-> nul, hitend |-> TRUE]
+     ELSE LET en == {i \in st..nul : i = nul \/ InSet(b[i], ds)}
               e  == CHOOSE i \in en : \A j \in en : i <= j
-          IN IF e = nul THEN [tok |-> st, len |-> e - st, b |-> b, pos |-> nul]
-             ELSE [tok |-> st, len |-> e - st, b |-> [b EXCEPT ![e] = 0], pos |-> e + 1]
+          IN IF e = nul THEN [tok |-> st, len |-> e - st, b |-> b, pos |-> nul, hitend |-> TRUE]
+             ELSE [tok |-> st, len |-> e - st, b |-> [b EXCEPT ![e] = 0], pos |-> e + 1, hitend |-> FALSE]
 
 Init == \E str \in Strs(L), extra \in {0, 1, 2} :
           LET b == str \o <<0, 7, 7>>
@@ -36,8 +36,9 @@ Init == \E str \in Strs(L), extra \in {0, 1, 2} :
 Call(di) ==
   /\ s.nulls < 2 /\ ~s.err /\ Len(s.calls) < L + 3
   /\ LET nul == NulAt(s.buf, s.pos, s.dmax0) IN
-     IF nul = 0 THEN s' = [s EXCEPT !.calls = Append(@, di), !.err = TRUE]          \* unterminated within dmax: ESUNTERM
-     ELSE LET r == RefStep(s.buf, s.pos, DelimSets[di], nul) IN
+     IF nul = 0 /\ LET r == RefStep(s.buf, s.pos, DelimSets[di], s.dmax0 + 1) IN r.hitend
+     THEN s' = [s EXCEPT !.calls = Append(@, di), !.err = TRUE]     \* no terminator within dmax and the scan runs off the end: ESUNTERM
+     ELSE LET r == RefStep(s.buf, s.pos, DelimSets[di], IF nul = 0 THEN s.dmax0 + 1 ELSE nul) IN
           s' = [s EXCEPT !.calls = Append(@, di), !.buf = r.b, !.pos = r.pos,
                          !.rets = IF r.tok = 0 THEN @ ELSE Append(@, <<r.tok, r.len, di>>),
                          !.nulls = IF r.tok = 0 THEN @ + 1 ELSE 0]
@@ -57,9 +58,10 @@ C14_Tokens ==
 C14_InPlace == \A j \in 1..Len(s.buf0) : s.buf[j] # s.buf0[j] => (s.buf[j] = 0 /\ s.buf0[j] \in {3, 4} /\ j <= s.dmax0)
 (* with one fixed delimiter set nothing is skipped: the tokens are all the maximal runs *)
 C14_Complete ==
-  (s.nulls = 2 /\ \A i \in 1..Len(s.calls) : s.calls[i] = s.calls[1]) =>
+  (s.nulls = 2 /\ ~s.err /\ \A i \in 1..Len(s.calls) : s.calls[i] = s.calls[1]) =>
      LET ds == DelimSets[s.calls[1]]
-         nul == NulAt(s.buf0, 1, s.dmax0)
+         nul0 == NulAt(s.buf0, 1, s.dmax0)
+         nul == IF nul0 = 0 THEN s.dmax0 + 1 ELSE nul0
          starts == {j \in 1..(nul - 1) : ~InSet(s.buf0[j], ds) /\ (j = 1 \/ InSet(s.buf0[j - 1], ds))}
      IN {s.rets[i][1] : i \in 1..Len(s.rets)} = starts
 C14_Bounds == s.pos >= 1 /\ s.pos <= s.dmax0 + 1
